@@ -132,6 +132,7 @@ type World struct {
 	cur      *Task
 	yieldCh  *baton
 	seq      uint64
+	goSeq    int // goroutines started by the code under test (verifsync.Go)
 	now      int64
 	timed    []timedEvent
 	steps    int
@@ -408,6 +409,21 @@ func init() {
 		}
 		w.LockWaits++
 		w.Block(site, cond)
+		return true
+	}
+}
+
+func init() {
+	verifsync.Spawn = func(fn func()) bool {
+		w := activeWorld
+		if w == nil || w.cur == nil {
+			return false
+		}
+		parent := w.cur
+		w.goSeq++
+		name := fmt.Sprintf("%s.go%d", parent.name, w.goSeq)
+		w.Logf("go", "%s", name)
+		w.Spawn(name, fn)
 		return true
 	}
 }
